@@ -5,7 +5,7 @@ import Stackage.Driver.Hist
 open Stackage.Driver
 
 def dispatch (stream payload : String) : String × String × String :=
-  if stream == "hist" || stream == "histx" then runHist payload
+  if ["hist", "histx", "capx", "nest", "pol", "xfer"].contains stream then runHist payload
   else ("NOSTREAM", "NOSTREAM", "")
 
 partial def loop (h : IO.FS.Stream) (out : IO.FS.Stream) : IO Unit := do
